@@ -8,6 +8,7 @@
 -/
 import SettlusModel.Proofs.RecWf
 import SettlusModel.Properties.C11
+import SettlusModel.Generated.Facts
 namespace Settlus.C06
 open Settlus
 
@@ -267,6 +268,42 @@ theorem malformed_vote_refused (H : Str → Str) (s : State) (f v : String) (sal
   rename_i hcond
   rw [hv] at hcond
   exact absurd hcond.2.2.1 (by simp)
+
+/-! ### inventory of data-dependent panic sites -/
+
+/-- the constructs of the two modules that can panic on a data-dependent condition are exactly these: the literal indexing of the two
+parsers (guarded by the length checks the model reproduces), the deliberate panics of genesis import, of `Settle`, of the slash
+loop and of `GetRewardPool`, the `GetSigners` panics on an address `ValidateBasic` rejects, and the two `sdk.NewCoins` calls. In
+particular no range-checked integer conversion (`Int64` / `Uint64` of a `math.Int`) is applied to a message field. A new site
+makes this theorem fail, and the check then looks for an input that reaches it. -/
+theorem panic_site_inventory : Facts.panicSites =
+    ["types/nft.go:ParseNftId:index[0]",
+     "types/nft.go:ParseNftId:index[1]",
+     "types/nft.go:ParseNftId:index[2]",
+     "x/oracle/genesis.go:InitGenesis:panic",
+     "x/oracle/genesis.go:InitGenesis:panic",
+     "x/oracle/keeper/feeder.go:GetRewardPool:panic",
+     "x/oracle/keeper/feeder.go:SlashValidatorsAndResetMissCount:panic",
+     "x/oracle/keeper/feeder.go:SlashValidatorsAndResetMissCount:panic",
+     "x/oracle/keeper/keeper.go:NewKeeper:panic",
+     "x/oracle/types/messages.go:GetSigners:panic",
+     "x/oracle/types/messages.go:GetSigners:panic",
+     "x/oracle/types/messages.go:GetSigners:panic",
+     "x/oracle/types/vote_data.go:StringToOwnershipData:index[0]",
+     "x/oracle/types/vote_data.go:StringToOwnershipData:index[0]",
+     "x/oracle/types/vote_data.go:StringToOwnershipData:index[1]",
+     "x/settlement/genesis.go:InitGenesis:panic",
+     "x/settlement/keeper/msg_server.go:DepositToTreasury:NewCoins",
+     "x/settlement/keeper/settle.go:Settle:panic",
+     "x/settlement/keeper/settle.go:tryPayout:NewCoins",
+     "x/settlement/types/msg.go:GetSigners:panic",
+     "x/settlement/types/msg.go:GetSigners:panic",
+     "x/settlement/types/msg.go:GetSigners:panic",
+     "x/settlement/types/msg.go:GetSigners:panic",
+     "x/settlement/types/msg.go:GetSigners:panic",
+     "x/settlement/types/msg.go:GetSigners:panic",
+     "x/settlement/types/msg.go:GetSigners:panic",
+     "x/settlement/types/msg.go:GetSigners:panic"] := by decide
 
 /-! ### non-vacuity -/
 
